@@ -327,7 +327,14 @@ func symConv(tdst types.Type, x *Sym) value {
 	wd, _ := kindWidth(kd)
 	ws, ssigned := kindWidth(x.K)
 	if kd == types.String {
-		// string(rune/byte): concretize
+		// string(rune/byte): an ASCII code point stays symbolic
+		if ws >= 8 {
+			ascii := bvCmp("bvult", x.T, mkConst(ws, 0x80))
+			if R.branch(ascii, "rune-ascii") {
+				return mkStr([]value{symVal(mkExtract(7, 0, x.T), types.Uint8)})
+			}
+		}
+		// otherwise concretize
 		v := R.concretize(x.T, "conv-int-to-string")
 		return conv(tdst, types.Typ[x.K], mkNative(x.K, v))
 	}
